@@ -6,6 +6,8 @@ CONSTANTS
   ExtSets = {"none", "default", "all", "allrev"}
   IdKinds = {"fresh", "dup", "empty", "pending"}
   Peers = {"OwnBare", "OwnFullSelf", "OwnFullOther", "Domain", "Contact", "ContactBare"}
+  Deferred = FALSE
+  MaxHosts = 2
   MaxHist = 99
 VIEW PendView
 ACTION_CONSTRAINT EmitBehaviour
